@@ -167,7 +167,8 @@ CLAIMS = {
         "direction of the sphere has a mesh vector within chord (r.pi/180)/sqrt 2 (both hemispheres, offset 0, all r > 0 "
         "without pole-duplicate removal, r >= 0.002 deg with it; removal loses no vector); for every hemisphere and every offset in "
         "[0,1) every mesh vector lies in the requested closed hemisphere and (grid with its pole duplicates) every direction of "
-        "it has a mesh vector within squared chord 5/4 (r.pi/180)^2; cube meshes return unit vectors, "
+        "it has a mesh vector within squared chord 5/4 (r.pi/180)^2 (offset 0: also after pole-duplicate removal, r >= 0.002 deg); "
+        "cube meshes return unit vectors, "
         "24 steps^2 + 2 of them; the normalized cube covers the sphere within chord tan(r)/sqrt 2 for 0 < r < 90 deg and "
         "divides by zero at 120 deg (proved, known finding); the equal-area mesh is defined for every r > 0, holds 4D(2D+1) grid "
         "nodes (D = ceil(90/r)) and covers the sphere: every direction v has a mesh vector g with v.g >= cos(pi/(4D)) - 1/(2D) "
